@@ -36,6 +36,12 @@ def completed(ps: List[Dict[str, Any]], vals: Dict[str, Any]) -> Dict[str, Any]:
             out[n] = codec.atom_py(p["cv"], p["dct"])
         elif k == "PHYS-CONST":
             out[n] = codec.dop_py(p["dop"], p["cv"])
+        elif k == "TABLE-STRUCT":
+            out[n] = _completed_dop(p["dop"], vals.get(n))
+        elif k == "TABLE-KEY":
+            # the row named explicitly, or by the TABLE-STRUCT that uses the key
+            user = next((vals[q["n"]] for q in ps if q["k"] == "TABLE-STRUCT" and q["sys"] == n and vals.get(q["n"]) is not None), None)
+            out[n] = vals.get(n) if vals.get(n) is not None else (user[0] if isinstance(user, (tuple, list)) else None)
         else:
             out[n] = None
     return out
@@ -44,6 +50,9 @@ def completed(ps: List[Dict[str, Any]], vals: Dict[str, Any]) -> Dict[str, Any]:
 def _completed_dop(d: Dict[str, Any], v: Any) -> Any:
     if v is None:
         return None
+    if d["k"] == "table":
+        row = next((r for r in d["rows"] if r["n"] == v[0]), None)
+        return (v[0], _completed_dop(row["st"], v[1]) if row is not None and row["st"]["k"] != "none" else None)
     if d["k"] == "struct":
         return completed(d["ps"], v)
     if d["k"] in ("simple", "dtc"):
@@ -86,7 +95,7 @@ def has_kind(ps: List[Dict[str, Any]], kinds: Tuple[str, ...]) -> bool:
                 break
             if d["k"] in kinds:
                 return True
-            if d["k"] == "mux":
+            if d["k"] in ("mux", "table"):
                 break
             d = d["st"]
     return False
